@@ -192,8 +192,15 @@ static int check_int_arg(arglist *al, unsigned index, const char *name) {
           name, name, arg);
     return 0;
   }
-  if (al->derivs)
+  if (al->derivs) {
+    /* Derivative formulas use orders up to arg +- 2. */
+    if (arg > INT_MAX - 5 || arg < INT_MIN + 5) {
+      error(al, "can't compute derivative: argument '%s' out of range, "
+            "%s = %g", name, name, arg);
+      return 0;
+    }
     check_const_arg(al, index, name);
+  }
   return 1;
 }
 
@@ -2006,8 +2013,9 @@ static double amplgsl_sf_hyperg_1F1_int(arglist *al) {
     al->derivs[2] = n > 0 ?
         m * gsl_sf_hyperg_1F1_int(m + 1, n + 1, x) / n : GSL_NAN;
     if (al->hes) {
-      al->hes[5] =
-          m * (m + 1) * gsl_sf_hyperg_1F1_int(m + 2, n + 2, x) / (n * (n + 1));
+      /* The products are computed in double to avoid int overflow. */
+      al->hes[5] = m * (m + 1.0) *
+          gsl_sf_hyperg_1F1_int(m + 2, n + 2, x) / (n * (n + 1.0));
     }
   }
   return check_result(al, gsl_sf_hyperg_1F1_int(m, n, x));
@@ -2168,7 +2176,7 @@ static double amplgsl_sf_legendre_Pl(arglist *al) {
       al->derivs[1] = -coef * (x * pl - pl_plus_1);
       if (al->hes) {
         al->hes[2] =
-            coef * ((x * x * (el + 2) + 1) * pl - (2 * el + 5) * x * pl_plus_1 +
+            coef * ((x * x * (el + 2) + 1) * pl - (2.0 * el + 5) * x * pl_plus_1 +
             (el + 2) * gsl_sf_legendre_Pl(el + 2, x)) / (x * x - 1);
       }
     } else {
@@ -2216,7 +2224,7 @@ static double amplgsl_sf_legendre_Ql(arglist *al) {
     al->derivs[1] = coef * (ql_plus_1 - x * ql);
     if (al->hes) {
       al->hes[2] =
-          coef * ((x * x * (el + 2) + 1) * ql - (2 * el + 5) * x * ql_plus_1 +
+          coef * ((x * x * (el + 2) + 1) * ql - (2.0 * el + 5) * x * ql_plus_1 +
           (el + 2) * gsl_sf_legendre_Ql(el + 2, x)) / (x * x - 1);
     }
   }
@@ -2424,7 +2432,8 @@ static double amplgsl_sf_pow_int(arglist *al) {
   if (al->derivs) {
     *al->derivs = n != 0 ? n * gsl_sf_pow_int(x, n - 1) : 0;
     if (al->hes)
-      *al->hes = n != 0 && n != 1 ? n * (n - 1) * gsl_sf_pow_int(x, n - 2) : 0;
+      *al->hes = n != 0 && n != 1 ?
+          n * (n - 1.0) * gsl_sf_pow_int(x, n - 2) : 0;
   }
   CHECK_CALL(value, gsl_sf_pow_int_e(x, n, &result));
   return check_result(al, value);
